@@ -226,6 +226,18 @@ func main() {
 		os.Exit(selftest(o))
 	case "c02canon":
 		c02Canon()
+	case "c14big": // debug: worker c14big <seed> <n>: cases with an include file over 1 MiB
+		seed, _ := strconv.ParseUint(os.Args[2], 10, 64)
+		n, _ := strconv.Atoi(os.Args[3])
+		for i := 0; i < n; i++ {
+			wrapIncludes = true
+			cs := genC14(seed, NewRng(seed, strSeed("C14"), uint64(i)), i, c14QuickVec)
+			for _, f := range cs.Files {
+				if k := countText(f.Tree); k > 1<<20 {
+					fmt.Printf("%d\t%s\t%s\t%d\n", i, f.Rel, stNames[f.State], k)
+				}
+			}
+		}
 	case "c02dump": // debug: worker c02dump <seed> <n> prints the generated sources
 		seed, _ := strconv.ParseUint(os.Args[2], 10, 64)
 		n, _ := strconv.Atoi(os.Args[3])
